@@ -854,6 +854,16 @@ def correspond(ctx, drivers):
 
 # =============================================================================== probes
 
+_UNDO = []
+
+
+def _S(obj, attr, val):
+    """set an attribute of a world object, remembering how to repair it"""
+    old = getattr(obj, attr)
+    _UNDO.append((obj, attr, old))
+    setattr(obj, attr, val)
+
+
 def _probes():
     """(key, description, views, mutate(world, rng) -> bool applicable).  Each pushes ONE value past its on-disk field:
     the writer must raise, or the value must come back unchanged."""
@@ -866,7 +876,7 @@ def _probes():
     def long_prop(w, r):
         if not w.props:
             return False
-        w.props[0].model = 'models/' + 'n' * r.choice([122, 123, 200]) + '.mdl'   # 133.. chars
+        _S(w.props[0], 'model', 'models/' + 'n' * r.choice([122, 123, 200]) + '.mdl')   # 133.. chars
         return True
     add('name-truncated:props', ['props', 'visleafs'], long_prop)
 
@@ -875,82 +885,83 @@ def _probes():
         ds = [d for d in w.detail_props if isinstance(d, DetailPropModel)]
         if not ds:
             return False
-        ds[0].model = 'models/' + 'd' * r.choice([122, 150]) + '.mdl'
+        _S(ds[0], 'model', 'models/' + 'd' * r.choice([122, 150]) + '.mdl')
         return True
     add('name-truncated:detail_props', ['detail_props'], long_detail)
 
     def long_tex(w, r):
-        w.textures = list(w.textures) + ['t' * r.choice([128, 129, 300])]
+        w.textures.append('t' * r.choice([128, 129, 300]))
+        _UNDO.append(lambda: w.textures.pop())
         return True
     add('oob:texture-name', ['textures'], long_tex)
 
     def cube(w, r):
         if not w.cubemaps:
             return False
-        w.cubemaps[0].size = r.choice([2**31, -2**31 - 1, 2**40])
+        _S(w.cubemaps[0], 'size', r.choice([2**31, -2**31 - 1, 2**40]))
         return True
     add('oob:cubemap-size', ['cubemaps'], cube)
 
     def cube_origin(w, r):
         if not w.cubemaps:
             return False
-        w.cubemaps[0].origin = Vec(float(2**31), 0.0, 0.0)
+        _S(w.cubemaps[0], 'origin', Vec(float(2**31), 0.0, 0.0))
         return True
     add('oob:cubemap-origin', ['cubemaps'], cube_origin)
 
     def overlay_faces(w, r):
         if not w.overlays:
             return False
-        w.overlays[0].faces = list(range(65))
+        _S(w.overlays[0], 'faces', list(range(65)))
         return True
     add('oob:overlay-faces', ['overlays', 'texinfo', 'textures'], overlay_faces)
 
     def overlay_id(w, r):
         if not w.overlays:
             return False
-        w.overlays[0].id = 2**31
+        _S(w.overlays[0], 'id', 2**31)
         return True
     add('oob:overlay-id', ['overlays', 'texinfo', 'textures'], overlay_id)
 
     def prop_skin(w, r):
         if not w.props:
             return False
-        w.props[0].skin = r.choice([2**31, -2**31 - 1])
+        _S(w.props[0], 'skin', r.choice([2**31, -2**31 - 1]))
         return True
     add('oob:prop-skin', ['props', 'visleafs'], prop_skin)
 
     def prop_solidity(w, r):
         if not w.props:
             return False
-        w.props[0].solidity = r.choice([256, -1, 1000])
+        _S(w.props[0], 'solidity', r.choice([256, -1, 1000]))
         return True
     add('oob:prop-solidity', ['props', 'visleafs'], prop_solidity)
 
     def leaf_dist(w, r):
         if not w.visleafs:
             return False
-        w.visleafs[0].min_water_dist = r.choice([65536, -1])
+        _S(w.visleafs[0], 'min_water_dist', r.choice([65536, -1]))
         return True
     add('oob:leaf-min-water-dist', None, leaf_dist)
 
     def leaf_area(w, r):
         if not w.visleafs or w.cfg in ('chaos', 'vitamin'):
             return False
-        w.visleafs[0].area = r.choice([512, 256, 300])
+        _S(w.visleafs[0], 'area', r.choice([512, 256, 300]))
         return True
     add('oob:leaf-area', None, leaf_area)
 
     def leaf_cluster(w, r):
         if not w.visleafs or w.cfg == 'chaos':
             return False
-        w.visleafs[0].cluster_id = r.choice([32768, -32769])
+        _S(w.visleafs[0], 'cluster_id', r.choice([32768, -32769]))
         return True
     add('oob:leaf-cluster', None, leaf_cluster)
 
     def face_fog(w, r):
         if not w.faces or w.cfg in ('chaos', 'vitamin'):
             return False
-        w.faces[0].surf_fog_volume_id = r.choice([32768, -32769])
+        _S(w.faces[0], 'surf_fog_volume_id', r.choice([32768, -32769]))
         return True
     add('oob:face-fog-volume', None, face_fog)
 
@@ -958,79 +969,108 @@ def _probes():
         if not w.faces or w.cfg in ('chaos', 'vitamin'):
             return False
         for f in w.faces + w.hdr_faces:
-            f.hammer_id = 65536 + 7
+            _S(f, 'hammer_id', 65536 + 7)
             if f.orig_face is not None:
-                f.orig_face.hammer_id = 65536 + 7
+                _S(f.orig_face, 'hammer_id', 65536 + 7)
         return True
     add('oob:face-hammer-id', None, face_hid)
 
     def plane_dist(w, r):
         if not w.planes:
             return False
-        w.planes[0].dist = 1e39      # too large for binary32
+        _S(w.planes[0], 'dist', 1e39)      # too large for binary32
         return True
     add('oob:plane-dist-float', ['planes'], plane_dist)
 
     def node_area(w, r):
         if not w.nodes:
             return False
-        w.nodes[0].area_ind = r.choice([32768, -32769])
+        _S(w.nodes[0], 'area_ind', r.choice([32768, -32769]))
         return True
     add('oob:node-area', None, node_area)
 
     def brush_disp(w, r):
         if not w.brushes or not any(b.sides for b in w.brushes):
             return False
-        next(b for b in w.brushes if b.sides).sides[0]._dispinfo = 2**15 if w.cfg != 'chaos' else 2**31
+        _S(next(b for b in w.brushes if b.sides).sides[0], '_dispinfo', 2**15 if w.cfg != 'chaos' else 2**31)
         return True
     add('oob:brushside-dispinfo', None, brush_disp)
 
     def detail_leaf(w, r):
         if not w.detail_props:
             return False
-        w.detail_props[0].leaf = 65536
+        _S(w.detail_props[0], 'leaf', 65536)
         return True
     add('oob:detail-leaf', ['detail_props'], detail_leaf)
 
     def texdata_w(w, r):
         if not w.texinfo:
             return False
-        w.texinfo[0]._info.width = 2**31
+        _S(w.texinfo[0]._info, 'width', 2**31)
         return True
     add('oob:texdata-width', ['texinfo', 'textures'], texdata_w)
 
     def vis_mismatch(w, r):
         if w.visibility is None or not w.visibility.potentially_visible:
             return False
-        w.visibility.potentially_audible = w.visibility.potentially_audible[:-1]
+        _S(w.visibility, 'potentially_audible', w.visibility.potentially_audible[:-1])
         return True
     add('oob:visibility-length-mismatch', ['visibility'], vis_mismatch)
     return P
 
 
 def _run_probe(tmp, cfg, pv, size, wseed, key, views, fn):
-    """Returns None (n/a), 'raised', 'exact', or ('silent', detail)."""
+    """Returns None (n/a), 'raised', 'exact', ('silent', detail) or ('error-path', detail).
+    When the writer raises, the value is repaired in place and the SAME BSP object must then still hold every assigned view
+    and save correctly (no view lost, no half-updated table or cache left behind by the failed save)."""
     from srctools.bsp import BSP, StaticPropVersion
     rng = random.Random(wseed)
     w = W.gen_world(rng, cfg, size=size, prop_version=pv)
+    del _UNDO[:]
     if not fn(w, random.Random(wseed + key)):
         return None
+    undo = list(_UNDO)
     bsp = W.open_config(cfg, tmp, 'probe')
     D = W.Dumper(cfg, w.prop_version)
     use = [v for v in W.VIEWS if views is None or v in views]
+    order = [v for v in use if v != 'bmodels']
+    if 'bmodels' in use and w.bmodels is not None:
+        order.insert(0, 'bmodels')
+    out = os.path.join(tmp, f'probe_{cfg}.bsp')
     try:
         W.assign_world(bsp, w, use)
         exp = {v: D.view(w, v) for v in use}
-        out = os.path.join(tmp, f'probe_{cfg}.bsp')
         bsp.save(out)
     except Exception as e:
+        # --- error path: repair the value, the object must be as good as before the failed save
+        for u in reversed(undo):
+            if callable(u):
+                u()
+            else:
+                setattr(u[0], u[1], u[2])
+        try:
+            good = {v: D.view(w, v) for v in use}
+            for v in order:
+                d = W.compare_view(v, good[v], D.view(bsp, v))
+                if d:
+                    return ('error-path', f'after the failed save ({type(e).__name__}) view {v} of the same BSP object no longer holds '
+                                          f'the assigned value: {d[0]}: assigned {str(d[1])[:60]} now {str(d[2])[:60]}')
+            # (looking at `ents` again re-parsed the already written lump, which sets the documented knob out_comma_sep from
+            # the first output it meets; put the knob back to what was assigned with the view)
+            bsp.out_comma_sep = w.force_sep
+            bsp.save(out)
+            c = BSP(out)
+            c.static_prop_version = StaticPropVersion[w.prop_version]
+            for v in order:
+                d = W.compare_view(v, good[v], D.view(c, v))
+                if d:
+                    return ('error-path', f'save after repairing the rejected value: view {v} differs at {d[0]}: {str(d[1])[:60]} / {str(d[2])[:60]}')
+        except Exception as e2:
+            return ('error-path', f'after the failed save ({type(e).__name__}) and repair: {type(e2).__name__}: {e2}')
         return 'raised'
     try:
         c = BSP(out)
         c.static_prop_version = StaticPropVersion[w.prop_version]
-        order = [v for v in use if v != 'bmodels']
-        if 'bmodels' in use and w.bmodels is not None:
-            order.insert(0, 'bmodels')
         for v in order:
             d = W.compare_view(v, exp[v], D.view(c, v))
             if d:
@@ -1222,8 +1262,11 @@ def search(ctx):
             if r is None:
                 continue
             tried += 1
-            ctx.count(f'probe:{key}:' + (r if isinstance(r, str) else 'SILENT'))
-            if isinstance(r, tuple):
+            ctx.count(f'probe:{key}:' + (r if isinstance(r, str) else r[0].upper()))
+            if isinstance(r, tuple) and r[0] == 'error-path':
+                ctx.witness('error-path:save-loses-view', f'{r[1]} (probe {key}, {cfg}, props {pv})',
+                            {'probe': key, 'cfg': cfg, 'prop_version': pv, 'wseed': wseed})
+            elif isinstance(r, tuple):
                 k2 = key if key.startswith('name-truncated') else 'silent-truncation:' + key
                 ctx.witness(k2, f'value outside the on-disk field was neither rejected nor preserved ({key}, {cfg}, props {pv}): {r[1]}',
                             {'probe': key, 'cfg': cfg, 'prop_version': pv, 'wseed': wseed})
